@@ -92,6 +92,28 @@ def sh(cmd, cwd=None, extra=None, timeout=None):
         return r
 
 
+
+COST = {'C19': 1, 'C11': 2, 'C18': 5, 'C03': 6, 'C04': 6, 'C17': 6, 'C05': 7, 'C14': 7, 'C12': 8, 'C13': 8, 'C15': 8, 'C07': 11, 'C16': 12,
+        'C06': 13, 'C20': 15, 'C10': 30, 'C09': 40, 'C08': 45, 'C01': 85, 'C02': 120}
+FILEPROPS = {}
+EXTRA = {'geom/line.go': ['C03', 'C09', 'C02'], 'geom/rtree.go': ['C09', 'C03', 'C01'], 'geom/alg_point_in_ring.go': ['C15', 'C01'],
+         'geom/type_sequence.go': ['C03'], 'geom/xy.go': ['C09', 'C13']}
+ALL = False
+
+
+def check_order(prop, path):
+    """the sampled property first, then every other property anchored in (or known to depend on) the file, cheap first"""
+    if not FILEPROPS:
+        for l in open(os.path.join(ROOT, 'properties.jsonl')):
+            p = json.loads(l)
+            for f in p['anchors']['files']:
+                FILEPROPS.setdefault(f, []).append(p['id'])
+    if not ALL:
+        return [prop]
+    others = [x for x in FILEPROPS.get(path, []) + EXTRA.get(path, []) if x != prop]
+    others = sorted(set(others), key=lambda x: COST.get(x, 50))
+    return [prop] + others
+
 def worker(wid, q, out, lock):
     wt = '/tmp/automut_wt%d' % wid
     sh('git -C /repo worktree remove --force %s' % wt)
@@ -109,7 +131,6 @@ def worker(wid, q, out, lock):
         rec = {'prop': prop, 'file': path, 'line': ln + 1, 'op': op, 'old': lines[ln].strip(), 'new': new.strip()}
         lines[ln] = new
         open(full, 'w').write('\n'.join(lines))
-        pkg = path.split('/')[0]
         try:
             b = sh('go build ./geom/ ./rtree/ ./carto/', cwd=wt)
             if b.returncode != 0:
@@ -119,19 +140,28 @@ def worker(wid, q, out, lock):
                 if 'FAIL' in t.stdout or 'panic' in t.stdout or t.returncode == 124:
                     rec['status'] = 'killed-by-suite'
                 else:
-                    c = sh('./check %s quick' % prop, cwd=ROOT, timeout=3600,
-                           extra={'VERIF_REPO': wt, 'VERIF_INSTANCE': 'am%d' % wid, 'VERIF_EVIDENCE_DIR': '/tmp/automut_ev%d' % wid})
-                    viol = [l for l in c.stdout.splitlines() if l.startswith('VIOLATION')]
-                    rec['exit'] = c.returncode
-                    rec['monitors'] = sorted(set(l.split('monitor=')[1].split()[0] for l in viol if 'monitor=' in l))
-                    rec['status'] = {0: 'SURVIVED', 1: 'killed-by-check', 2: 'inconclusive'}.get(c.returncode, 'exit-%d' % c.returncode)
-                    if c.returncode not in (0, 1):
-                        rec['tail'] = c.stdout[-400:]
+                    rec['checks'] = {}
+                    rec['status'] = 'SURVIVED'
+                    for cp in check_order(prop, path):
+                        c = sh('./check %s quick' % cp, cwd=ROOT, timeout=3600,
+                               extra={'VERIF_REPO': wt, 'VERIF_INSTANCE': 'am%d' % wid, 'VERIF_EVIDENCE_DIR': '/tmp/automut_ev%d' % wid})
+                        viol = [l for l in c.stdout.splitlines() if l.startswith('VIOLATION')]
+                        mons = sorted(set(l.split('monitor=')[1].split()[0] for l in viol if 'monitor=' in l))
+                        rec['checks'][cp] = {'exit': c.returncode, 'monitors': mons}
+                        if c.returncode == 1:
+                            rec['status'] = 'killed-by-check'
+                            rec['killed_by'] = cp
+                            rec['monitors'] = mons
+                            break
+                        if c.returncode != 0:
+                            rec['status'] = 'inconclusive'
+                            rec['tail'] = c.stdout[-400:]
+                            break
         finally:
             open(full, 'w').write(orig)
         with lock:
             out.setdefault(prop, []).append(rec)
-            print('%s %-16s %s:%d %s | %s' % (prop, rec['status'], path, ln + 1, op, ','.join(rec.get('monitors', [])[:4])), flush=True)
+            print('%s %-16s %s:%d %s | %s %s' % (prop, rec['status'], path, ln + 1, op, rec.get('killed_by', ''), ','.join(rec.get('monitors', [])[:4])), flush=True)
             os.makedirs(os.path.join(ROOT, 'mutants', 'auto'), exist_ok=True)
             json.dump(out[prop], open(os.path.join(ROOT, 'mutants', 'auto', '%s.s%d.json' % (prop, SEED)), 'w'), indent=1)
     sh('git -C /repo worktree remove --force %s' % wt)
@@ -144,10 +174,34 @@ def main():
     ap.add_argument('-j', type=int, default=4)
     ap.add_argument('-s', type=int, default=1)
     ap.add_argument('ids', nargs='*')
+    ap.add_argument('--all', action='store_true', help='run every property anchored in the mutated file (stop at the first kill), not only the sampled one')
+    ap.add_argument('--recheck', help='JSON result file(s) (glob): re-run the SURVIVED mutants recorded there with --all')
     ap.add_argument('--one', help='file:line — apply one given mutant instead of sampling (with --new and ids = checks to run)')
     ap.add_argument('--new', help='replacement text of that line (leading whitespace is kept from the original)')
-    global SEED
+    global SEED, ALL
     a = ap.parse_args()
+    ALL = a.all or bool(a.recheck)
+    if a.recheck:
+        import glob
+        q = queue.Queue()
+        seen = set()
+        for f in sorted(glob.glob(a.recheck)):
+            for r in json.load(open(f)):
+                key = (r['file'], r['line'], r['new'])
+                if r['status'] != 'SURVIVED' or key in seen:
+                    continue
+                seen.add(key)
+                src = open(os.path.join('/repo', r['file'])).read().split('\n')[r['line'] - 1]
+                if src.strip() != r['old']:
+                    print('stale record', r['file'], r['line']); continue
+                indent = src[:len(src) - len(src.lstrip())]
+                q.put((r['prop'], (r['file'], r['line'] - 1, r['op'], indent + r['new'] if r['new'] else '')))
+        SEED = 900 + a.s
+        out, lock = {}, threading.Lock()
+        ts = [threading.Thread(target=worker, args=(i, q, out, lock)) for i in range(a.j)]
+        for t in ts: t.start()
+        for t in ts: t.join()
+        return
     if a.one:
         f, ln = a.one.rsplit(':', 1)
         ln = int(ln) - 1
